@@ -378,6 +378,9 @@ func (x *Exec) havocAll(st *State, why string) {
 		if old.Set != nil {
 			st.heap[k] = x.wrapSet(st.heap[k], old.SetElem)
 		}
+		if k == "G:$now" {
+			x.assume(st, x.vc.cmp(">=", st.heap[k].T, old.T, true))
+		}
 	}
 	st.heap["#epoch"] = Val{T: x.vc.fresh("epoch", "Int"), Sort: "Int"}
 }
@@ -406,6 +409,10 @@ func (x *Exec) havocKey(st *State, k string) {
 		nv = x.wrapSet(nv, old.SetElem)
 	}
 	st.heap[k] = nv
+	if k == "G:$now" {
+		// the clock only moves forward
+		x.assume(st, x.vc.cmp(">=", nv.T, old.T, true))
+	}
 }
 
 func (x *Exec) wrapSet(v Val, elem string) Val {
